@@ -201,6 +201,22 @@ Theorem C17_omit_support :
 Proof. exact (conj omit_cpp_no_asserts omit_unguarded_all_undeclared). Qed.
 Print Assumptions C17_omit_support.
 
+(* (9) The string literals of the assertion messages interpolate only literal-safe template expressions
+   (DSDL file name / path, option key), never an option value: documented values contain double quotes
+   (quoted include paths) and free text may contain backslashes, either of which would end or corrupt the
+   literal and break the build of IDENTICAL option sets.  (Also a conjunct of sides_agree, on which (1),
+   (2), (5), (5') rest.) *)
+Theorem C17_messages_literal_safe :
+  (forall sd, In sd [c_support_side; c_type_side; cpp_support_side; cpp_type_side] ->
+     forall e, In e (sd_msg_exprs sd) -> In e safe_msg_exprs) /\
+  str_in [118; 97; 108; 117; 101] (* value *) safe_msg_exprs = false /\ str_in sav_expr safe_msg_exprs = false.
+Proof.
+  split; [|exact value_not_literal_safe].
+  intros sd Hsd. apply msg_safe_spec.
+  exact (proj1 (forallb_forall _ _) all_messages_literal_safe sd Hsd).
+Qed.
+Print Assumptions C17_messages_literal_safe.
+
 (* ---- non-vacuity ---- *)
 (* the hypotheses of (1) are satisfied by the defaults of properties.yaml ... *)
 Example C17_defaults_in_domain :
